@@ -199,6 +199,68 @@ pub fn open_flags(rng: &mut Rng, has_fifo: bool) -> i32 {
     fl
 }
 
+/// Which operations a suite draws from.
+#[derive(Clone, Copy, Debug, PartialEq, Eq)]
+pub enum OpClass {
+    All,
+    Lookups,
+    Mutating,
+    MkdirAll,
+    RemoveAll,
+    Single,
+    Reopen,
+}
+
+impl OpClass {
+    pub fn parse(s: &str) -> Option<OpClass> {
+        Some(match s {
+            "all" => OpClass::All,
+            "lookups" => OpClass::Lookups,
+            "mutating" => OpClass::Mutating,
+            "mkdir_all" => OpClass::MkdirAll,
+            "remove_all" => OpClass::RemoveAll,
+            "single" => OpClass::Single,
+            "reopen" => OpClass::Reopen,
+            _ => return None,
+        })
+    }
+
+    pub fn admits(self, op: &Op) -> bool {
+        let lookup = matches!(
+            op,
+            Op::Resolve { .. } | Op::OpenSubpath { .. } | Op::Readlink { .. }
+        );
+        match self {
+            OpClass::All => true,
+            OpClass::Lookups => lookup,
+            OpClass::Mutating => !lookup && !matches!(op, Op::Reopen { .. }),
+            OpClass::MkdirAll => matches!(op, Op::MkdirAll { .. }),
+            OpClass::RemoveAll => matches!(op, Op::RemoveAll { .. }),
+            OpClass::Single => matches!(
+                op,
+                Op::Mkdir { .. }
+                    | Op::Mknod { .. }
+                    | Op::Symlink { .. }
+                    | Op::Hardlink { .. }
+                    | Op::CreateFile { .. }
+                    | Op::RemoveFile { .. }
+                    | Op::RemoveDir { .. }
+                    | Op::Rename { .. }
+            ),
+            OpClass::Reopen => matches!(op, Op::Reopen { .. }),
+        }
+    }
+}
+
+pub fn gen_op_in(rng: &mut Rng, spec: &TreeSpec, class: OpClass) -> Op {
+    loop {
+        let op = gen_op(rng, spec);
+        if class.admits(&op) {
+            return op;
+        }
+    }
+}
+
 pub fn gen_op(rng: &mut Rng, spec: &TreeSpec) -> Op {
     let has_fifo = spec.entries.iter().any(|e| e.kind == Kind::Fifo);
     match rng.below(100) {
@@ -253,7 +315,7 @@ pub fn gen_op(rng: &mut Rng, spec: &TreeSpec) -> Op {
         },
         67..=78 => Op::MkdirAll {
             path: mkdir_all_path(rng, spec),
-            mode: *rng.pick(&[0o755, 0o700, 0o711, 0o1777, 0o2755, 0o4755, 0o10755]),
+            mode: *rng.pick(&[0o755, 0o755, 0o755, 0o700, 0o700, 0o711, 0o711, 0o1777, 0o1777, 0o2755, 0o4755, 0o10755]),
         },
         79..=82 => Op::RemoveFile {
             path: lookup_path(rng, spec),
